@@ -38,15 +38,21 @@ fn recover_case<P: G>(cfg: Cfg, name: String, wit: Wit, ctx: Ctx, rng: &'static 
         let built = build_cached::<P>(&cfg, &wit).expect("valid");
         let proof = match lib_prove(&built, &ctx, &mut HRng::from_model(rng)) {
             Ok(p) => p,
-            Err(e) => {
-                res.outcome = "prover-refused".into();
-                res.violate("prove", format!("prover refused: {}", crate::api::err_name(&e)));
+            Err(_) => {
+                // a refused valid witness is C01 / C06's finding; there is no mask to judge
+                res.outcome = "prover-refused(skipped)".into();
                 return res;
             },
         };
         res.executions += 1;
         let truth = wit.blindings[0].clone();
+        // an honest proof that plain verification does not accept is C01's finding: only RecoverOnly can then be judged
+        let plain_ok = verify_observed_one(&built.statement, &proof, &ctx, VerifyAction::VerifyOnly).is_ok();
         for mode in MODES {
+            if !plain_ok && mode != VerifyAction::RecoverOnly {
+                res.outcome = "honest-proof-not-accepted(noted)".into();
+                continue;
+            }
             let obs = verify_observed_one(&built.statement, &proof, &ctx, mode);
             res.executions += 1;
             res.validated += 1;
@@ -157,7 +163,16 @@ fn batch_cases<P: G>(n: usize, d: usize, depth: usize) -> Vec<Box<dyn Case>> {
                 let batch: Vec<&BMember<P>> = seq.iter().enumerate().map(|(p, k)| &tpl.members[p][*k]).collect();
                 let sts: Vec<RangeStatement<P>> = batch.iter().map(|m| m.statement.clone()).collect();
                 let proofs: Vec<RangeProof<P>> = batch.iter().map(|m| P::proof_clone(&m.proof)).collect();
+                let plain_ok = {
+                    let mut ts: Vec<Transcript> = batch.iter().map(|m| m.ctx.transcript()).collect();
+                    verify_observed(&sts, &proofs, &mut ts, VerifyAction::VerifyOnly).is_ok()
+                };
                 for mode in MODES {
+                    if !plain_ok && mode != VerifyAction::RecoverOnly {
+                        // an all-valid batch that plain verification rejects is C03's finding
+                        res.outcome = "valid-batch-not-accepted(noted)".into();
+                        continue;
+                    }
                     let mut ts: Vec<Transcript> = batch.iter().map(|m| m.ctx.transcript()).collect();
                     let obs = verify_observed(&sts, &proofs, &mut ts, mode);
                     res.executions += 1;
@@ -185,7 +200,13 @@ fn batch_cases<P: G>(n: usize, d: usize, depth: usize) -> Vec<Box<dyn Case>> {
 
 /// Long batches beyond the chunk limit: the i-th result is the i-th member's mask
 fn long_batch_case<P: G>(len: usize, d: usize) -> Box<dyn Case> {
-    case(format!("{}/n=2,d={}/long-batch/L={}", P::NAME, d, len), move |_v| {
+    long_batch_case_layout::<P>(len, d, "mixed")
+}
+
+/// layout "mixed": seeded / unseeded / aggregated members throughout; "seedless-first-chunk": the first 256 members carry
+/// no seed, the members after them do
+fn long_batch_case_layout<P: G>(len: usize, d: usize, layout: &'static str) -> Box<dyn Case> {
+    case(format!("{}/n=2,d={}/long-batch/{}/L={}", P::NAME, d, layout, len), move |_v| {
         fg::clear_intern();
         let mut res = CaseResult::new("recovered");
         let mut sts = Vec::new();
@@ -193,7 +214,21 @@ fn long_batch_case<P: G>(len: usize, d: usize) -> Box<dyn Case> {
         let mut ctxs = Vec::new();
         let mut expect: Vec<Option<Vec<Scalar>>> = Vec::new();
         for pos in 0..len {
-            let kind = if pos == 0 || pos == 1 || pos == 255 || pos == 256 || pos + 1 == len || pos % 5 == 2 { "seeded" } else if pos % 11 == 4 { "aggregated" } else { "unseeded" };
+            let kind = if layout == "seedless-first-chunk" {
+                if pos >= 256 {
+                    "seeded"
+                } else if pos % 11 == 4 {
+                    "aggregated"
+                } else {
+                    "unseeded"
+                }
+            } else if pos == 0 || pos == 1 || pos == 255 || pos == 256 || pos + 1 == len || pos % 5 == 2 {
+                "seeded"
+            } else if pos % 11 == 4 {
+                "aggregated"
+            } else {
+                "unseeded"
+            };
             let cfg = if kind == "aggregated" { Cfg::new(2, 2, 2, d) } else { Cfg::new(2, 1, 1, d) };
             let wit = Wit {
                 values: (0..cfg.m).map(|j| ((pos + j) as u64) & 3).collect(),
@@ -208,7 +243,15 @@ fn long_batch_case<P: G>(len: usize, d: usize) -> Box<dyn Case> {
             ctxs.push(ctx);
             expect.push(wit.seed.map(|_| wit.blindings[0].clone()));
         }
+        let plain_ok = {
+            let mut ts: Vec<Transcript> = ctxs.iter().map(|c| c.transcript()).collect();
+            verify_observed(&sts, &proofs, &mut ts, VerifyAction::VerifyOnly).is_ok()
+        };
         for mode in [VerifyAction::RecoverAndVerify, VerifyAction::RecoverOnly] {
+            if !plain_ok && mode == VerifyAction::RecoverAndVerify {
+                res.outcome = "valid-batch-not-accepted(noted)".into();
+                continue;
+            }
             let mut ts: Vec<Transcript> = ctxs.iter().map(|c| c.transcript()).collect();
             let obs = verify_observed(&sts, &proofs, &mut ts, mode);
             res.executions += 1;
@@ -309,6 +352,8 @@ pub fn run(rep: &mut Report) {
         long.push(long_batch_case::<F>(len, 2));
         long.push(long_batch_case::<RistrettoPoint>(len, 2));
     }
+    long.push(long_batch_case_layout::<F>(258, 1, "seedless-first-chunk"));
+    long.push(long_batch_case_layout::<RistrettoPoint>(258, 1, "seedless-first-chunk"));
     rep.explore("C09", long);
     rep.expect_outcome("recovered");
 }
